@@ -16,7 +16,7 @@ import re
 import terms as tm
 import nf
 from spec import Spec
-from common import api_roots, vec_info, tydef, TRUSTED_COMMON
+from common import api_roots, vec_info, tydef, TRUSTED_COMMON, rustdoc_of, fn_params, panic_promises
 from lift import ArgView, strip_ref
 from runner import norm_def_path, REPO
 from C07 import root_outputs
@@ -62,6 +62,98 @@ def doc_promises():
                         out.append((rel, m.group(4), i + 1))
                 doc = []
     return out
+
+
+def check_documented_operands(ctx, pair, name, it, rb, gained, prom, body):
+    """R-PRECOND-DOC.  (a) every parameter the panic sentence names in backticks is tested by some assertion of the assert build (an assertion on
+    the wrong operand, or a dropped conjunct, leaves a documented violation unreported).  (b) the boundary the sentence draws is the one asserted,
+    decided by substituting the boundary point into the asserted condition: "`x` is negative" - x = 0 must pass; "less than or equal to zero" -
+    x = 0 must fail; "`min` is greater than `max`" - min = max must pass; "all elements of `scale` are zero" - (1, 0, ..) must pass and 0 fail.
+    -> (operands checked, boundary cases evaluated)"""
+    params = fn_params(REPO, it)
+    if not params:
+        return 0, 0
+    text = ' '.join(prom)
+    named = [w for w in re.findall(r'`([A-Za-z_][A-Za-z0-9_]*)`', text) if w in params]
+    atoms_of_arg = {}
+    for a, info in rb.atoms.items():
+        atoms_of_arg.setdefault(info.arg, set()).add(a)
+    n_arg = n_b = 0
+    where = {'file': it['file'], 'line': it['line']}
+    # a function that asserts anything itself is expected to assert all its documented operands itself (an assertion met only on some path
+    # through a callee - slerp's lerp fallback - does not make the documented panic happen); a pure delegator is judged by its callees' assertions
+    own_ = [p for p in gained if p.fn == it['d']]
+    conds = [p.cond for p in (own_ or gained)]
+    for w in dict.fromkeys(named):
+        ai = params.index(w)
+        ats = atoms_of_arg.get(ai, set())
+        if not ats:
+            continue
+        n_arg += 1
+        inst = '%s [`%s`]' % (name, w)
+        if any(c.deps & ats for c in conds):
+            ctx.holds('R-PRECOND-DOC', pair, inst)
+        else:
+            ctx.violation('R-PRECOND-DOC', pair, inst, dict(where, problem='the documentation says a bad `%s` panics with glam-assert, but no assertion of the assert build tests `%s`' % (w, w)))
+    # boundary points
+
+    def at(cond, mapping):
+        return tm.subst(cond, mapping)
+
+    def lanes_of(w):
+        ai = params.index(w)
+        return sorted(atoms_of_arg.get(ai, set()), key=lambda a: (rb.atoms[a].off, a.id))
+
+    def zero_like(a):
+        return tm.fconst(0.0, rb.atoms[a].size) if rb.atoms[a].size in (4, 8) else None
+    cases = []          # (description, mapping, expected truth of the conjunction of the assertions that mention the operands)
+    for m in re.finditer(r'`(\w+)`(?:\s+or\s+`(\w+)`)?\s+(?:is|are)\s+negative', text):
+        for w in [g for g in m.groups() if g and g in params]:
+            ls = lanes_of(w)
+            if ls and all(zero_like(a) is not None for a in ls):
+                cases.append(('`%s` = 0 is not negative and must be accepted' % w, {a: zero_like(a) for a in ls}, set(ls), True))
+    for m in re.finditer(r'`(\w+)`(?:\s+or\s+`(\w+)`)?\s+(?:is|are)\s+less than or equal to zero', text):
+        for w in [g for g in m.groups() if g and g in params]:
+            ls = lanes_of(w)
+            if ls and all(zero_like(a) is not None for a in ls):
+                cases.append(('`%s` = 0 is documented to panic' % w, {a: zero_like(a) for a in ls}, set(ls), False))
+    for m in re.finditer(r'`(\w+)` is greater than `(\w+)`', text):
+        lo, hi = m.group(1), m.group(2)
+        if lo in params and hi in params:
+            l1, l2 = lanes_of(lo), lanes_of(hi)
+            if l1 and len(l1) == len(l2):
+                cases.append(('`%s` = `%s` is not "greater" and must be accepted' % (lo, hi), {a: b for a, b in zip(l1, l2)}, set(l1) | set(l2), True))
+    for m in re.finditer(r'all elements of `(\w+)` are zero', text):
+        w = m.group(1)
+        if w in params:
+            ls = lanes_of(w)
+            if len(ls) >= 2 and all(zero_like(a) is not None for a in ls):
+                one = tm.fconst(1.0, rb.atoms[ls[0]].size)
+                cases.append(('`%s` = (1, 0, ..) has a zero element but is not all zero and must be accepted' % w,
+                              {a: (one if i == 0 else zero_like(a)) for i, a in enumerate(ls)}, set(ls), True))
+                cases.append(('`%s` = 0 is documented to panic' % w, {a: zero_like(a) for a in ls}, set(ls), False))
+    for (desc, mapping, ats, expect) in cases:
+        rel_ = [c for c in conds if c.deps & ats]
+        if not rel_:
+            continue
+        vals = [at(c, mapping) for c in rel_]
+        inst = '%s [%s]' % (name, desc)
+        if expect:
+            # no assertion may be violated at the boundary point (conditions are the PANIC conditions: they must fold to false)
+            if any(v is tm.TRUE for v in vals):
+                n_b += 1
+                ctx.violation('R-PRECOND-DOC', pair, inst, dict(where, problem='an assertion rejects a value the documentation allows: ' + desc))
+            elif all(v is tm.FALSE for v in vals):
+                n_b += 1
+                ctx.holds('R-PRECOND-DOC', pair, inst)
+        else:
+            if all(v is tm.FALSE for v in vals):
+                n_b += 1
+                ctx.violation('R-PRECOND-DOC', pair, inst, dict(where, problem='no assertion fires on a value the documentation says panics: ' + desc))
+            elif any(v is tm.TRUE for v in vals):
+                n_b += 1
+                ctx.holds('R-PRECOND-DOC', pair, inst)
+    return n_arg, n_b
 
 
 def cond_shape(t, atoms, memo=None):
@@ -215,11 +307,6 @@ def run(ctx):
     pairs = PAIRS_QUICK if ctx.tier == 'quick' else PAIRS_THOROUGH
     cfgs = ctx.need(sorted({c for p in pairs for c in p}))
     ctx.trusted = TRUSTED_COMMON
-    promises = doc_promises()
-    ctx.floor('functions documenting a glam_assert panic', len(promises), 300)
-    prom_idx = {}
-    for (f, n, l) in promises:
-        prom_idx.setdefault((f, n), []).append(l)
     cross = {}
     for (base, asrt) in pairs:
         if base not in cfgs or asrt not in cfgs:
@@ -227,7 +314,7 @@ def run(ctx):
         Fa, Fb = ctx.facts(base), ctx.facts(asrt)
         Ha, Hb = ctx.harness(base), ctx.harness(asrt)
         pair = '%s|%s' % (base, asrt)
-        n = n_gain = n_doc_ok = 0
+        n = n_gain = n_doc_ok = n_documented = n_docarg = n_boundary = 0
         shapes = {}
         for name, it in api_roots(Fa):
             itb = Fb.items.get(name)
@@ -254,9 +341,10 @@ def run(ctx):
             # panic-site differencing
             ka = {(p.kind, p.fn) for p in ra.panics}
             gained = [p for p in rb.panics if (p.kind, p.fn) not in ka or len([q for q in rb.panics if (q.kind, q.fn) == (p.kind, p.fn)]) > len([q for q in ra.panics if (q.kind, q.fn) == (p.kind, p.fn)])]
-            rel = it['file']
-            lines_ = prom_idx.get((rel, it.get('name')), [])
-            documented = any(0 <= it['line'] - l <= 6 or 0 <= l - it['line'] <= 6 for l in lines_)
+            prom = panic_promises(rustdoc_of(REPO, it)) if (it.get('vis') == 'pub' and not it.get('trait')) or gained else []
+            documented = bool(prom)
+            if documented:
+                n_documented += 1
             if gained:
                 n_gain += 1
             own = [p for p in gained if p.fn == it['d']]
@@ -276,6 +364,9 @@ def run(ctx):
                 if good:
                     n_doc_ok += 1
                     ctx.holds('R-PRECOND', pair, name)
+                    a_, b_ = check_documented_operands(ctx, pair, name, it, rb, gained, prom, Fb.body(itb['key']))
+                    n_docarg += a_
+                    n_boundary += b_
                 else:
                     ctx.violation('R-PRECOND', pair, name, {'file': it['file'], 'line': it['line'], 'problem': 'rustdoc promises a glam_assert panic but the assert build adds no assertion over the operands of this function'})
         # the same function in another backend asserts the same precondition whenever the condition tests the operands directly
@@ -316,6 +407,9 @@ def run(ctx):
         ctx.floor('sibling assertion shapes compared (%s)' % pair, n_sib, 100)
         ctx.floor('functions compared with/without glam-assert (%s)' % pair, n, 13000)
         ctx.floor('documented preconditions found asserted (%s)' % pair, n_doc_ok, 200)
+        ctx.floor('functions documenting a glam_assert panic (%s)' % pair, n_documented, 220)
+        ctx.floor('documented operands checked against the assertions (%s)' % pair, n_docarg, 270)
+        ctx.floor('documented boundary cases evaluated (%s)' % pair, n_boundary, 60)
         ctx.count('functions_gaining_panic_sites:' + pair, n_gain)
         ctx.floor('internally established normalisation preconditions (%s)' % pair,
                   sum(1 for o in ctx.obligations if o[0] == 'R-PRECOND-INT' and o[1] == pair), 12)
